@@ -36,11 +36,15 @@ def shards(tier):
     return 2 if tier == 'quick' else 8
 
 
+_cycle = {'n': 0}
+
+
 def gen_cfg(rng):
     names = ['TagA', 'TagB', 'Flt', 'Big', 'Scal', 'Uns']
     cfg = []
     for nm in names:
-        t = rng.choice(TYPES)
+        _cycle['n'] += 1
+        t = TYPES[_cycle['n'] % len(TYPES)]         # every type occurs, deterministically
         if nm == 'Big':
             t, n = rng.choice(['INT', 'DINT', 'REAL']), rng.choice([300, 600, 1000])
         elif nm == 'Scal':
